@@ -85,8 +85,8 @@ func LeanStr(s string) string {
 			b.WriteString("\\n")
 		case r == '\t':
 			b.WriteString("\\t")
-		case r < 0x20 || r > 0x7e:
-			fmt.Fprintf(&b, "\\u{%x}", r)
+		case r < 0x20 || (r > 0x7e && r <= 0xffff):
+			fmt.Fprintf(&b, "\\u%04x", r)
 		default:
 			b.WriteRune(r)
 		}
@@ -146,6 +146,9 @@ func (c *ctx) write(outDir string) error {
 	for _, m := range mods {
 		var b strings.Builder
 		b.WriteString("-- GENERATED from /repo by harness/internal/extract on every run. Do not edit.\n")
+		if m == "Effects" {
+			b.WriteString("import Sidetree.Effects\nopen Sidetree.Effects\n")
+		}
 		b.WriteString("namespace Sidetree.Generated\n\n")
 		for _, f := range byMod[m] {
 			fmt.Fprintf(&b, "/-- %s%s -/\n", f.Source, func() string {
